@@ -9,7 +9,7 @@ from ..spec import to_statechart
 
 PROP = 'C09'
 LEVEL = 'exploration'
-BUDGET = {'quick': 2400, 'thorough': 48000}
+BUDGET = {'quick': 7200, 'thorough': 96000}
 RULE = ('cases = (a) generated well-formed chart with probe contracts (data-only conditions '
         'reading cv[cid], some reading __old__), table guards and after()/idle() guards + history '
         'with clock advances, and a condition valuation cv (all true, or some false); (b) the '
